@@ -1,4 +1,5 @@
 import SpowtdModel.Model.Curves
+import SpowtdModel.Lemmas.Curves
 import SpowtdModel.Lemmas.CurvesRat
 /-
   C09 — the reference water level is the origin of the master curve.  Over `Rat`.
@@ -8,6 +9,11 @@ namespace Spowtd
 /-- every series listed at a level has an offset, and no level is empty -/
 def Covered (a : Aligned Rat) : Prop :=
   ∀ hl ∈ a.mapping, hl.2 ≠ [] ∧ ∀ st ∈ hl.2, ∃ v, (st.1, v) ∈ a.offsets
+
+/-- supplement: the hypothesis `Covered` holds for every alignment the model produces -/
+theorem alignSeries_covered (step : Rat) (series : List (List (Rat × Rat))) (a : Aligned Rat)
+    (h : alignSeries step series = .ok a) : Covered a :=
+  (alignSeries_traced h).covered
 
 /-- With a reference level `k` the master curve is zero at `k`. -/
 theorem master_zero_at_reference (a a' : Aligned Rat) (k : Int) (hc : Covered a)
